@@ -137,6 +137,16 @@ Theorem C13_remove_stage : forall w now sender id w',
   w_limit w' = w_limit w /\ w_kind w' = w_kind w /\ w_admins w' = w_admins w.
 Proof. exact remove_stage_spec. Qed.
 
+(* the same on every state any history can reach (no side condition) *)
+Theorem C13_remove_stage_on_reachable_states : forall w now sender id w',
+  reachable w -> step w now (RemoveStage sender id) = Ok w' ->
+  let k := N.to_nat id in
+  (exists s, nth_error (w_stages w) k = Some s /\ now < s_start s) /\
+  w_stages w' = firstn k (w_stages w) /\
+  (forall st a, (k <= st)%nat -> mem_get (w_mem w') st a = None) /\
+  (forall st a, (st < k)%nat -> mem_get (w_mem w') st a = mem_get (w_mem w) st a).
+Proof. exact remove_stage_reachable. Qed.
+
 (* ---- what the other operations leave alone ---- *)
 Theorem C13_update_changes_one_stage_only :
   forall w now sender id name start end_ price pal mcl w',
@@ -237,6 +247,7 @@ Print Assumptions C13_merkle_has_member_consults_active_root.
 Print Assumptions C13_flex_member_limit_from_active_stage.
 Print Assumptions C13_no_active_stage_no_member.
 Print Assumptions C13_remove_stage.
+Print Assumptions C13_remove_stage_on_reachable_states.
 Print Assumptions C13_update_changes_one_stage_only.
 Print Assumptions C13_member_edits_are_stage_scoped.
 Print Assumptions C13_merkle_stage_count_and_roots_fixed.
